@@ -93,8 +93,10 @@ def _check(c, orig, model, input_db, span, kwargs, result, case):
         return
     # certificate shared with C03: non-singular, well-conditioned observation covariance, identified initial condition
     # (the certificate does not depend on shock means, so announced/anticipated shock paths in the data are admitted here)
-    if c03.prepare(c, model, input_db, span, kwargs, tag="smooth", allow_ant=True) is None:
+    pr_ = c03.prepare(c, model, input_db, span, kwargs, tag="smooth", allow_ant=True)
+    if pr_ is None:
         return
+    n_observed = len(pr_["jt"].y_obs)   # with unit roots and no observation at all the unknown initial level is not identified
     sm = out["smooth_med"]
     spec = case["spec"]
     span = tuple(span)
@@ -237,7 +239,9 @@ def _check(c, orig, model, input_db, span, kwargs, result, case):
         except Exception as exc:
             c.inconc(f"smooth:resimulation-not-possible:{type(exc).__name__}")
     # ---- 5. deviation mode == level mode (-) steady state
-    if not deviation and n_unit == 0 and not kwargs.get("stds_from_data") and case.get("do_deviation_twin"):
+    # (with unit roots only under fixed_unknown: fixed_zero pins the unit-root component of the LEVEL in one mode and of the
+    # DEVIATION in the other, which are different initial conditions whenever the steady state loads on the unit-root block)
+    if not deviation and (n_unit == 0 or (kwargs.get("diffuse_method", "fixed_unknown") == "fixed_unknown" and n_observed > 0)) and not kwargs.get("stds_from_data") and case.get("do_deviation_twin"):
         try:
             sdb = ir.Databox.steady(model, ir.Span(span[0], span[-1]))
             ddb = input_db.copy()
